@@ -499,7 +499,9 @@ def main(tier):
     for sc_dir in range(7):
         opts = [cn if d in COARSENED[sc_dir] else on for d in range(3)]
         for shp in itertools.product(*opts):
-            if int(np.prod(shp)) > cap:
+            # (three coarsened directions: 8x4x4 = 128 cells was still
+            # undecided after 650 s; 96 cells take a minute)
+            if int(np.prod(shp)) > (cap if sc_dir else min(cap, 100)):
                 continue
             jobs.append(('case_transfer', (sc_dir, shp, 'triaxial')))
             shapes_used.setdefault(sc_dir, []).append(shp)
